@@ -809,7 +809,7 @@ def _focal_raster(rng, pool, hmax=6, wmax=6):
     k = rng.random()
     if k < 0.03:                             # an empty raster: no rows, no columns, or neither
         h, w = rng.choice([(0, 3), (2, 0), (0, 0), (0, 1)])
-        return np.zeros((h, w)), ["empty", "empty"]
+        return np.zeros((h, w)), ["empty", "zeros"]
     if k < 0.08:
         h, w, cls = 1, 1, "1x1"
     elif k < 0.2:
